@@ -50,7 +50,9 @@ def scratch(prop, with_tests=False, patched=True):
     os.makedirs(tmp)
     shutil.copytree('/repo/pexpect', os.path.join(tmp, 'pexpect'))
     os.makedirs(os.path.join(tmp, 'SEED'))
-    shutil.copy(os.path.join(sdir(prop), 'demo.py'), os.path.join(tmp, 'SEED', 'demo.py'))
+    for fn in os.listdir(sdir(prop)):
+        if fn not in ('patch.diff', 'patch.orig.diff', 'meta.json', 'notes.md'):
+            shutil.copy(os.path.join(sdir(prop), fn), os.path.join(tmp, 'SEED', fn))
     if with_tests:
         shutil.copytree('/repo/tests', os.path.join(tmp, 'tests'))
         for f in ('setup.cfg', '.coveragerc'):
@@ -75,9 +77,12 @@ def cmd_import(prop, wt):
         diff = open(os.path.join(seed, 'patch.diff')).read()
     open(os.path.join(d, 'patch.diff'), 'w').write(diff)
     shutil.copy(os.path.join(seed, 'demo.py'), os.path.join(d, 'demo.py'))
-    notes = os.path.join(seed, 'notes.md')
-    if os.path.exists(notes):
-        shutil.copy(notes, os.path.join(d, 'notes.md'))
+    # notes and any helper files the demonstration uses (a fake ssh client, ...)
+    for fn in sorted(os.listdir(seed)):
+        src = os.path.join(seed, fn)
+        if fn in ('patch.diff', 'demo.py') or not os.path.isfile(src) or fn.endswith('.pyc'):
+            continue
+        shutil.copy(src, os.path.join(d, fn))
     m = load_meta(prop)
     m['property'] = prop[:3]
     m['origin_path'] = wt
